@@ -80,7 +80,7 @@ func TestC15(t *testing.T) {
 			"signature validity (valid, other chain id, signed over another fee, garbage), memo length, payer balance around the fee, amount around the balance (handler fails after "+
 			"authentication). Oracle: model predicate auth (known by construction) decides: auth ∧ covers fee ⇒ payer -declared fee and collector +declared fee exactly once whatever "+
 			"the message result; otherwise code != 0 and no balance changes. non-trivial = authenticated tx whose message fails, or fee below required, or multisig signer",
-		map[string]float64{"auth-pass-handler-fail": 0.3, "fee-below-required": 0.3, "multisig": 0.4, "bad-signature": 0.3},
+		map[string]float64{"auth-pass-handler-fail": 0.3, "fee-below-required": 0.3, "multisig": 0.4, "bad-signature": 0.3, "duplicate-in-same-block": 0.5},
 		func(rt *rapid.T, c *harness.Case) {
 			w := chain.GenWorld(rt)
 			c.Opf("%s", w.Describe())
@@ -96,6 +96,15 @@ func TestC15(t *testing.T) {
 				mid := n.Accounts() // after BeginBlock (fee distribution of the previous block happened)
 				r := n.DeliverTx(fc.tx)
 				after := n.Accounts()
+				// "once": the identical bytes delivered again in the same block must move nothing, whatever the first result was
+				if rapid.IntRange(0, 2).Draw(rt, "duplicateInBlock") == 0 {
+					c.Label("duplicate-in-same-block")
+					r2 := n.DeliverTx(fc.tx)
+					after2 := n.Accounts()
+					if d2 := diffBalances(after, after2); len(d2) != 0 || r2.Code == 0 {
+						c.Violation("C15/duplicate-in-block/moved-funds-again", "the same transaction bytes delivered twice in one block: second delivery returned %d/%s and moved %v (first: %d/%s): %s", r2.Code, r2.Codespace, d2, r.Code, r.Codespace, fc.desc)
+					}
+				}
 				n.Commit(n.EndBlock())
 				_ = before
 
